@@ -494,7 +494,8 @@ class ApplyLinks(Processor):
             # make sure the residue graph is updated; this takes care that
             # nodes are also removed from the fragment graphs in the
             # meta_molecule.nodes['graph'] attribute
-            meta_molecule.relabel_and_redo_res_graph(mapping={})
+            for res_node in meta_molecule.nodes:
+                meta_molecule.nodes[res_node]["graph"].remove_nodes_from(self.nodes_to_remove)
         # now we add all interactions but not the ones that contain the removed
         # nodes
         for inter_type in self.applied_links:
